@@ -90,10 +90,48 @@ def req(case):
     return '%s;%s' % (hx(case['s']), cfgcodec.encode(mk(case['c'])))
 
 
+_ENV = {'poisoned': False, 'caches': {}}
+
+
+def hostile_environment():
+    """once per worker process, BEFORE the first expansion: a caller builds configurations of several types / syntaxes and then changes
+    its own resolved copies in place (every option / snippet / variable replaced, new keys added). The statements promise that a result
+    depends only on the arguments of the call, so nothing of this may show in any later expansion - it does when a resolved
+    Config hands out one of the library's own tables instead of a copy."""
+    if _ENV['poisoned']: return
+    _ENV['poisoned'] = True
+    from emmet.config import Config
+    for raw in ({}, {'syntax': 'html'}, {'type': 'stylesheet'}, {'type': 'stylesheet', 'syntax': 'scss'}, {'syntax': 'xsl'}, {'syntax': 'pug'}, {'syntax': 'jsx'},
+                {'syntax': 'slim'}, {'syntax': 'haml'}, {'syntax': 'xml'}, {'syntax': 'vue'}, {'syntax': 'unknown-syntax'}, {'type': 'stylesheet', 'syntax': 'sass'}):
+        for glob in (None, {}):
+            try: c = Config(dict(raw), glob) if glob is not None else Config(dict(raw))
+            except Exception: continue
+            for d in (c.options, c.snippets, c.variables):
+                if not isinstance(d, dict): continue
+                for k in list(d):
+                    v = d[k]
+                    if callable(v): continue
+                    d[k] = (not v) if isinstance(v, bool) else (v + 7) if isinstance(v, int) else '~poison~' if isinstance(v, str) else ['~poison~'] if isinstance(v, list) else {'~poison~': '~'} if isinstance(v, dict) else v
+                d['~poison~'] = '~poison~'
+
+
+def shared_cache(cfg):
+    """one `cache` dictionary per distinct configuration (everything but the wrap text), kept for the whole life of the worker process"""
+    import json
+    key = json.dumps({k: v for k, v in cfg.items() if k not in ('text', 'cache')}, sort_keys=True, default=lambda f: getattr(f, '__name__', 'callable'))
+    return _ENV['caches'].setdefault(key, {})
+
+
+def outcome_cached(ab, cfg):
+    """the same call with a `cache` that earlier calls under the same configuration have already used"""
+    return outcome(ab, dict(cfg, cache=shared_cache(cfg)))
+
+
 def outcome(ab, cfg):
     from emmet import expand
     from emmet.scanner import ScannerException
     from emmet.token_scanner import TokenScannerException
+    hostile_environment()
     try: return ('ok', expand(ab, cfg))
     except ScannerException as e: return ('scanner', e.pos)
     except TokenScannerException as e: return ('token', e.pos)
@@ -118,7 +156,10 @@ def oracle_C07(ab, o):
 def run(case, prop):
     ab = case['s']; o = outcome(ab, mk(case['c']))
     viol = []
-    if prop == 'C07': viol = oracle_C07(ab, o)
+    if prop == 'C07':
+        viol = oracle_C07(ab, o)
+        o2 = outcome_cached(ab, mk(case['c']))
+        if o2 != o: viol += ['(with a cache shared by earlier calls) ' + v for v in oracle_C07(ab, o2)]
     tags = {'gen:' + case['g']: 1, 'outcome:' + o[0]: 1, 'syntax:' + case['c'].get('syntax', '-'): 1}
     return line_of(o), viol, tags
 
